@@ -2,7 +2,7 @@
 
 PROPS = {
     "C18": {
-        "modules": ["Cose.Props.C18", "Cose.Props.CwtEndToEnd", "Cose.Cwt.View"],
+        "modules": ["Cose.Props.C18", "Cose.Props.CwtEndToEnd", "Cose.Cwt.View", "Cose.Props.ClaimsForms"],
         "families": ["cwt", "claims"],
         "spec_ops": ["cwt.spec", "cwt.wallclock", "claims.enc"],
         "n_quick": 20000, "n_thorough": 2000000,
@@ -134,7 +134,7 @@ PROPS = {
         "assumptions": ["non-repetition of crypto/rand output is not a theorem: proved instead that each encryption consumes its own block of the stream"],
     },
     "C09": {
-        "modules": ["Cose.Props.C09", "Cose.Props.C09Sign", "Cose.Props.C09All", "Cose.Props.KdfRoundtrip", "Cose.Props.KeySetRoundtrip", "Cose.Props.ClaimsRoundtrip"], "families": ["msg:C09", "kdf", "claims", "dec", "map"], "spec_ops": ["kdf.enc", "claims.enc", "dec.bytestr", "dec.keyjson"],
+        "modules": ["Cose.Props.C09", "Cose.Props.C09Sign", "Cose.Props.C09All", "Cose.Props.KdfRoundtrip", "Cose.Props.KeySetRoundtrip", "Cose.Props.ClaimsRoundtrip", "Cose.Props.ClaimsForms"], "families": ["msg:C09", "kdf", "claims", "dec", "map"], "spec_ops": ["kdf.enc", "claims.enc", "dec.bytestr", "dec.keyjson"],
         "n_quick": 400, "n_thorough": 40000,
         "rule": "library-produced messages of the 6 kinds re-encoded (tagged and untagged input), RemoveCBORTag on tagged and CWT-tagged input; foreign non-canonical messages re-encoded then consumed again "
                 "(decode -> encode -> decode -> verify on the library, predicted by the model); the decoded object is independent of its input buffer and of other objects decoded from the same octets (buffer overwritten, header maps edited), and a Verify / Decrypt leaves its re-encoding unchanged (every kind x every algorithm at fixed slots)",
